@@ -52,6 +52,9 @@ class OutlineBase(plumpy.WorkChain):
             script = self.inputs['rets']
             val = script[idx] if idx < len(script) else None
         tr.append(name)
+        if kind == 's' and self.inputs.get('midsave'):
+            # the step saves the workchain from inside itself (e.g. an extra checkpoint under a tag); the saved state is not used
+            plumpy.Bundle(self)
         if kind == 's' and self.inputs.get('awaits'):
             # the step also submits something and records it for the context (resolved one loop iteration later); this
             # changes neither the order of the calls nor what the step's return value means
